@@ -8,6 +8,7 @@ ID = "C06"
 LEAN_MODULES = ["LhasaV.Props.C06"]
 VH_FEATURES = []
 THEOREMS = {"glob_iff": "full: match_glob = wildcard semantics for every pattern and string", "select_spec": "full", "glob_literal": "full", "glob_trailing_stars": "full",
+            "macbinary_strip": "full: recognised envelope -> data fork (or resource fork)", "macbinary_keep": "full", "mac_header_spec": "full: field-by-field characterisation",
             "no_filter_selects_all": "full", "flatten_ignores_path": "full", "flatten_single_component": "full", "relocate_prefix": "full",
             "(extract_tree: resulting tree = archived tree)": "correspondence: real tree = independent oracle = Fs/Extract model"}
 TRUSTED = ["abstract file system LhasaV.Model.Fs and extraction model LhasaV.Model.Extract (x/e loop with wildcard filter, overwrite "
